@@ -61,6 +61,14 @@ class Listener(object):
     def __repr__(self):
         return 'L(%s#%d,%s)' % (self.name, self.idx, self.behaviour)
 
+    def handle(self, payload):
+        return self(payload)
+
+    def callback(self):
+        """what is handed to add_/remove_event_listener: the object itself, or - for every other listener - a bound method
+        (each attribute access makes a new, equal, method object: 'proto.remove_event_listener(name, self.handle)')"""
+        return self.handle if self.idx % 2 else self
+
     def __call__(self, payload):
         env = self.env
         self.got.append(payload)
@@ -101,7 +109,7 @@ class Env(object):
         self.actions.append(('add', l))
         self.registered[l.name].append(l)
         self.ctl.log.append('add_event_listener(%s, %r)' % (l.name, l))
-        d = self.ctl.proto.add_event_listener(l.name, l)
+        d = self.ctl.proto.add_event_listener(l.name, l.callback())
         d.addErrback(lambda f: None)
 
     def remove(self, l):
@@ -111,7 +119,7 @@ class Env(object):
         self.registered[l.name].remove(l)
         self.ctl.log.append('remove_event_listener(%s, %r)' % (l.name, l))
         try:
-            d = self.ctl.proto.remove_event_listener(l.name, l)
+            d = self.ctl.proto.remove_event_listener(l.name, l.callback())
             d.addErrback(lambda f: None)
         except Exception as e:
             self.raised.append(('remove_event_listener', repr(l), type(e).__name__, str(e)))
@@ -568,7 +576,7 @@ def run_subs_one(ops, delayed):
                         env.all.append(l)
                     ctl.log.append('remove_event_listener(%s, %r) [not registered]' % (name, l))
                     try:
-                        d = ctl.proto.remove_event_listener(name, l)
+                        d = ctl.proto.remove_event_listener(name, l.callback())
                         if d is not None:
                             d.addErrback(lambda f: None)
                     except Exception:
